@@ -141,6 +141,33 @@ pub fn run(args: &[String]) {
             }
         }
     }
+    // word boundaries of the joint-bit set: every suffix of length <= B after a filler that brings the total
+    // to exactly 64 and 128 tokens (Input keeps one u64 of joint bits per 64 tokens)
+    let blen = arg_u64(args, "--boundary", 0) as u32;
+    if blen > 0 {
+        use SyntaxKind::*;
+        for total_len in [64usize, 128] {
+            for len in 0..=blen {
+                let total = nk.pow(len);
+                for k in 0..total {
+                    count += 1;
+                    if count % nshards != shard {
+                        continue;
+                    }
+                    let mut v: Vec<(SyntaxKind, bool)> = Vec::with_capacity(total_len);
+                    for i in 0..(total_len - len as usize) {
+                        v.push((if i % 2 == 0 { IDENT } else { SEMICOLON }, false));
+                    }
+                    let mut x = k;
+                    for _ in 0..len {
+                        v.push((kinds[(x % nk) as usize], false));
+                        x /= nk;
+                    }
+                    emit(&mut w, &v);
+                }
+            }
+        }
+    }
     // random sequences (length 1..=14) with random joint bits, biased towards punctuation runs
     let mut rng = Rng::new(seed.wrapping_add(shard.wrapping_mul(104729)));
     for _ in 0..arg_u64(args, "--random", 0) {
